@@ -69,6 +69,21 @@ CLAIMED = {
        "signal handlers between bytecodes of the main thread (assumed, not modelled); a body that itself raises is outside the model.",
   technique="Lean 4 proof (induction over files and over an interleaving relation of signals) + generated handler semantics + forked-child signal injection",
   ref="DESIGN.md §5 C20"),
+ "C04": dict(
+  text="Partial. Lean 4 theorems (Props/C04.lean): the modelled decoders are TOTAL and their only failure is the format error - "
+       "mpeg_decode_total (every 32-bit header: a decoded header or HeaderNotFound, indices always inside the generated tables), "
+       "streaminfo_load_total, unsynch_decode_total, bitpadded_parse_total, flac_walk_total, ogg_parse_total (any byte string: a page and "
+       "the rest, end of stream, or the Ogg error; lacing sums stay inside the data), readBits_lt/readFields_bounds (bit reader never reads "
+       "outside), entrypoints_convert (every load/save/delete entry point in the table REGENERATED from the decorators in /repo converts "
+       "IOError to the format error). The rest of the parsers (about 30 formats) is not modelled: the property is searched on the real "
+       "code by structured mutation of every sample file and synthesised header through all 32 openers x {open, save, reopen, delete} under "
+       "a time limit and an address-space limit; any other exception class, a hang or a closed caller file object is a violation keyed by "
+       "(exception, module, function).",
+  note="Trusted: Lean kernel; standard axioms; extract.py (tables, decorator table); the fuzz harness, its timer-based hang guard and its "
+       "generator (mutation kinds and their distribution are written to the evidence). A theorem covers only the modelled decoders; for all "
+       "other parsers this check is a search, and says so.",
+  technique="Lean 4 proof (totality of the modelled decoders, generated entry-point table) + mutation search over all openers on the real code",
+  ref="DESIGN.md §5 C04"),
  "C05": dict(
   text="Lean 4 theorems (Props/C05.lean): mutagen's MPEG bitrate/sample-rate tables and the WavPack/Musepack/AAC/AC-3 rate tables (regenerated from "
        "source) equal the published tables; mpeg_header_decodes - for EVERY 32-bit MPEG audio header (all field combinations incl. reserved bits) "
